@@ -195,21 +195,36 @@ package sam
 
 // ---- line parsing: safety (no panic for arbitrary fields) ----
 
+// parseLine (C03, C11): decoder = spec for the eleven mandatory fields (text fields verbatim, integer fields by
+// Atoi) and the optional fields (parseTags); accepts exactly the lines with >= 11 fields whose integer fields are
+// decimal integers and whose optional fields are well formed.
 //@ func parseLine
-//@   props C11
-//@   thin
+//@   props C03 C11
+//@   let L := old(line)
+//@   let n := old(len(line))
+//@   let R := result.0
 //@   ensures result.1 == nil <==> result.0 != nil
 //@   ensures result.1 == nil || localErr(result.1)
+//@   ensures @C03 result.1 == nil ==> n >= 11 && atoiOK(L[1]) && atoiOK(L[3]) && atoiOK(L[4]) && atoiOK(L[7]) && atoiOK(L[8])
+//@   ensures @C03 result.1 == nil ==> forall j int :: 11 <= j && j < n ==> tagOK(L[j])
+//@   ensures @C03 n >= 11 && atoiOK(L[1]) && atoiOK(L[3]) && atoiOK(L[4]) && atoiOK(L[7]) && atoiOK(L[8]) && (forall j int :: 11 <= j && j < n ==> tagOK(L[j])) ==> result.1 == nil
+//@   ensures @C03 result.1 == nil ==> R.Qname == L[0] && R.Rname == L[2] && R.Cigar == L[5] && R.Rnext == L[6] && R.Seq == L[9] && R.Qual == L[10]
+//@   ensures @C03 result.1 == nil ==> R.Flag == atoi(L[1]) && R.Pos == atoi(L[3]) && R.Mapq == atoi(L[4]) && R.Pnext == atoi(L[7]) && R.Tlen == atoi(L[8])
+//@   ensures @C03 result.1 == nil ==> !isnil(R.Tags) && forall j int :: 11 <= j && j < n ==> has(R.Tags, tname(L[j]))
+//@   ensures @C03 result.1 == nil ==> forall j int :: 11 <= j && j < n && (forall i int :: j < i && i < n ==> tname(L[i]) != tname(L[j])) ==> R.Tags[tname(L[j])] == tval(L[j])
+//@   ensures @C03 result.1 == nil ==> forall k string :: has(R.Tags, k) ==> exists j int :: 11 <= j && j < n && tname(L[j]) == k && R.Tags[k] == tval(L[j])
 
 //@ func parseInts
-//@   props C11
-//@   thin
+//@   props C03 C11
 //@   modifies p
 //@   requires forall k int :: 0 <= k && k < len(p) ==> p[k] != nil
 //@   panics len(strs) != len(p)
 //@   ensures result == nil || localErr(result)
+//@   ensures @C03 result == nil <==> forall k int :: 0 <= k && k < len(strs) ==> atoiOK(strs[k])
+//@   ensures @C03 result == nil ==> forall k int :: 0 <= k && k < len(strs) ==> deref(p[k]) == atoi(strs[k])
 //@   loop 1
 //@     invariant len(strs) == len(p) && forall k int :: 0 <= k && k < len(p) ==> p[k] != nil
+//@     invariant forall k int :: 0 <= k && k < i ==> atoiOK(strs[k]) && deref(p[k]) == atoi(strs[k])
 
 // parseTags (C03, C11): decoder = spec (specs/25sam.spec: tagOK, tname, tval). Every field must be well formed;
 // the result maps each name to the typed value of its LAST occurrence and has no other keys.
@@ -223,14 +238,14 @@ package sam
 //@   ensures @C03 result.1 == nil ==> forall j int :: 0 <= j && j < n ==> has(result.0, tname(values[j]))
 //@   ensures @C03 result.1 == nil ==> forall j int :: 0 <= j && j < n && (forall i int :: j < i && i < n ==> tname(values[i]) != tname(values[j])) ==>
 //@             result.0[tname(values[j])] == tval(values[j])
-//@   ensures @C03 result.1 == nil ==> forall k string :: has(result.0, k) ==> exists j int :: 0 <= j && j < n && tname(values[j]) == k
+//@   ensures @C03 result.1 == nil ==> forall k string :: has(result.0, k) ==> exists j int :: 0 <= j && j < n && tname(values[j]) == k && result.0[k] == tval(values[j])
 //@   loop 1
 //@     invariant !isnil(result) && 0 <= K && K <= n
 //@     invariant forall j int :: 0 <= j && j < K ==> tagOK(values[j])
 //@     invariant forall j int :: 0 <= j && j < K ==> has(result, tname(values[j]))
 //@     invariant forall j int :: 0 <= j && j < K && (forall i int :: j < i && i < K ==> tname(values[i]) != tname(values[j])) ==>
 //@                 result[tname(values[j])] == tval(values[j])
-//@     invariant forall k string :: has(result, k) ==> exists j int :: 0 <= j && j < K && tname(values[j]) == k
+//@     invariant forall k string :: has(result, k) ==> exists j int :: 0 <= j && j < K && tname(values[j]) == k && result[k] == tval(values[j])
 
 //@ func splitTag
 //@   props C03 C11
@@ -254,6 +269,7 @@ package sam
 //@ func tagToText
 //@   props C03
 //@   panics !(dynbyte(val) || dynint(val) || dynfloat(val) || dynstr(val) || dynbytes(val))
+//@   ensures isTagText(result, tag, val)
 //@   let n := len(tag)
 //@   ensures forall j int :: 0 <= j && j < n ==> result[j] == tag[j]
 //@   ensures len(result) >= n + 3 && result[n] == ':' && result[n + 2] == ':'
@@ -267,18 +283,74 @@ package sam
 //@   ensures dynbytes(val) ==> result[n + 1] == 'H' && len(result) == n + 3 + len(hexenc(arr(asbytes(val)), len(asbytes(val)))) &&
 //@             forall j int :: 0 <= j && j < len(hexenc(arr(asbytes(val)), len(asbytes(val)))) ==> result[n + 3 + j] == hexenc(arr(asbytes(val)), len(asbytes(val)))[j]
 
+// tagsToText (C03): one text per entry of the map (isTagText, specs/25sam.spec), in some order (sorted by
+// sort.Strings: the order is not part of this contract).
 //@ func tagsToText
 //@   props C03 C07
-//@   trusted assumed: returns some slice of strings and has no other effect (its callee tagToText uses a type switch, outside the verified subset; the tag text codec is served by the bounded stand-in)
+//@   witness texts
+//@   panics exists k string :: has(tags, k) && !(dynbyte(tags[k]) || dynint(tags[k]) || dynfloat(tags[k]) || dynstr(tags[k]) || dynbytes(tags[k]))
+//@   ensures len(result) == len(tags)
+//@   ensures len(texts) == len(result) && forall j int :: 0 <= j && j < len(result) ==> texts[j] == result[j]
+//@   ensures forall j int :: 0 <= j && j < len(result) ==> exists k string :: has(tags, k) && isTagText(result[j], k, tags[k])
+//@   ensures forall k string :: has(tags, k) ==> exists j int :: 0 <= j && j < len(result) && isTagText(result[j], k, tags[k])
+//@   ensures forall j int :: 0 <= j && j < len(texts) ==> exists k string :: has(tags, k) && isTagText(texts[j], k, tags[k])
+//@   ensures forall k string :: has(tags, k) ==> exists j int :: 0 <= j && j < len(texts) && isTagText(texts[j], k, tags[k])
+//@   loop 1
+//@     invariant len(texts) == seenN
+//@     invariant forall j int :: 0 <= j && j < len(texts) ==> exists k string :: seen(k) && has(tags, k) && isTagText(texts[j], k, tags[k])
+//@     invariant forall k string :: seen(k) ==> exists j int :: 0 <= j && j < len(texts) && isTagText(texts[j], k, tags[k])
+//@     invariant forall k string :: seen(k) ==> (dynbyte(tags[k]) || dynint(tags[k]) || dynfloat(tags[k]) || dynstr(tags[k]) || dynbytes(tags[k]))
 
 //@ func SAM.Write
 //@   props C03 C07
+//@   witness texts from tagsToText
 //@   requires !w.failed
+//@   requires forall k string :: has(s.Tags, k) ==> (dynbyte(s.Tags[k]) || dynint(s.Tags[k]) || dynfloat(s.Tags[k]) || dynstr(s.Tags[k]) || dynbytes(s.Tags[k]))
 //@   ensures result == nil <==> !w.failed
 //@   ensures result == nil || ioErr(result)
+// layout of the written line: the eleven mandatory fields separated by TABs, then TAB + text for each optional
+// field (texts: the result of tagsToText), then LF
+//@   let L0 := old(len(w.out))
+//@   let E0 := L0 + len(s.Qname)
+//@   let E1 := E0 + 1 + len(itoa(s.Flag))
+//@   let E2 := E1 + 1 + len(s.Rname)
+//@   let E3 := E2 + 1 + len(itoa(s.Pos))
+//@   let E4 := E3 + 1 + len(itoa(s.Mapq))
+//@   let E5 := E4 + 1 + len(s.Cigar)
+//@   let E6 := E5 + 1 + len(s.Rnext)
+//@   let E7 := E6 + 1 + len(itoa(s.Pnext))
+//@   let E8 := E7 + 1 + len(itoa(s.Tlen))
+//@   let E9 := E8 + 1 + len(s.Seq)
+//@   let E10 := E9 + 1 + len(s.Qual)
+//@   let ok := result == nil
+//@   ensures @C03 ok ==> len(texts) == len(s.Tags) && len(w.out) == E10 + tw(texts, len(texts)) + 1 && w.out[E10 + tw(texts, len(texts))] == 10
+//@   ensures @C03 ok ==> forall j int :: 0 <= j && j < len(texts) ==> exists k string :: has(s.Tags, k) && isTagText(texts[j], k, s.Tags[k])
+//@   ensures @C03 ok ==> forall k string :: has(s.Tags, k) ==> exists j int :: 0 <= j && j < len(texts) && isTagText(texts[j], k, s.Tags[k])
+//@   ensures @C03 ok ==> forall x int :: 0 <= x && x < L0 ==> w.out[x] == old(w.out)[x]
+//@   ensures @C03 ok ==> forall x int :: L0 <= x && x < E0 ==> w.out[x] == s.Qname[x - L0]
+//@   ensures @C03 ok ==> w.out[E0] == 9 && forall x int :: E0 + 1 <= x && x < E1 ==> w.out[x] == itoa(s.Flag)[x - (E0 + 1)]
+//@   ensures @C03 ok ==> w.out[E1] == 9 && forall x int :: E1 + 1 <= x && x < E2 ==> w.out[x] == s.Rname[x - (E1 + 1)]
+//@   ensures @C03 ok ==> w.out[E2] == 9 && forall x int :: E2 + 1 <= x && x < E3 ==> w.out[x] == itoa(s.Pos)[x - (E2 + 1)]
+//@   ensures @C03 ok ==> w.out[E3] == 9 && forall x int :: E3 + 1 <= x && x < E4 ==> w.out[x] == itoa(s.Mapq)[x - (E3 + 1)]
+//@   ensures @C03 ok ==> w.out[E4] == 9 && forall x int :: E4 + 1 <= x && x < E5 ==> w.out[x] == s.Cigar[x - (E4 + 1)]
+//@   ensures @C03 ok ==> w.out[E5] == 9 && forall x int :: E5 + 1 <= x && x < E6 ==> w.out[x] == s.Rnext[x - (E5 + 1)]
+//@   ensures @C03 ok ==> w.out[E6] == 9 && forall x int :: E6 + 1 <= x && x < E7 ==> w.out[x] == itoa(s.Pnext)[x - (E6 + 1)]
+//@   ensures @C03 ok ==> w.out[E7] == 9 && forall x int :: E7 + 1 <= x && x < E8 ==> w.out[x] == itoa(s.Tlen)[x - (E7 + 1)]
+//@   ensures @C03 ok ==> w.out[E8] == 9 && forall x int :: E8 + 1 <= x && x < E9 ==> w.out[x] == s.Seq[x - (E8 + 1)]
+//@   ensures @C03 ok ==> w.out[E9] == 9 && forall x int :: E9 + 1 <= x && x < E10 ==> w.out[x] == s.Qual[x - (E9 + 1)]
+//@   ensures @C03 ok ==> forall m int :: {tw(texts, m)} 0 <= m && m < len(texts) ==> w.out[E10 + tw(texts, m)] == 9
+//@   ensures @C03 ok ==> forall m int, x int :: {tws(texts, m), w.out[x]} 0 <= m && m < len(texts) && E10 + tws(texts, m) <= x && x < E10 + tws(texts, m) + len(texts[m]) ==>
+//@             w.out[x] == texts[m][x - (E10 + tws(texts, m))]
 //@   loop 1
-//@     invariant s != nil && !w.failed
+//@     snapshot P := w.out
+//@     invariant s != nil && !w.failed && 0 <= K && K <= len(texts)
+//@     invariant len(w.out) == len(P) + tw(texts, K)
+//@     invariant forall x int :: 0 <= x && x < len(P) ==> w.out[x] == P[x]
+//@     invariant forall m int :: {tw(texts, m)} 0 <= m && m < K ==> w.out[len(P) + tw(texts, m)] == 9
+//@     invariant forall m int, x int :: {tws(texts, m), w.out[x]} 0 <= m && m < K && len(P) + tws(texts, m) <= x && x < len(P) + tws(texts, m) + len(texts[m]) ==>
+//@                 w.out[x] == texts[m][x - (len(P) + tws(texts, m))]
 
 //@ func SAM.MarshalText
 //@   props C03
+//@   requires forall k string :: has(s.Tags, k) ==> (dynbyte(s.Tags[k]) || dynint(s.Tags[k]) || dynfloat(s.Tags[k]) || dynstr(s.Tags[k]) || dynbytes(s.Tags[k]))
 //@   ensures result.1 == nil
